@@ -1095,6 +1095,10 @@ std::vector<uint8_t> MDSDRV_Converter::convert_track(const std::vector<MDSDRV_Ev
 	{
 		uint8_t type = it->type;
 		uint16_t arg = it->arg;
+		// A loop is left at its first break on the last pass, so a further break in the same
+		// loop is never taken: only the first one gets a break command.
+		if(type == MDSDRV_Event::LPB && loop_break_address.size() && loop_break_address.top())
+			continue;
 		if(type == MDSDRV_Event::REST && arg)
 		{
 			arg -= 1;
